@@ -28,7 +28,9 @@ type C13Case struct {
 	FinalNL bool     `json:"final_nl"`
 	Trail   []string `json:"trail,omitempty"` // extra trailing blank / white-space lines
 	Via     string   `json:"via"`             // id | file | all
-	Lab     []string `json:"labels,omitempty"`
+	// Dir: name of the test file's directory below tests/regression/tests ("" = REQUEST-<category>-X); any name is legal
+	Dir string   `json:"dir,omitempty"`
+	Lab []string `json:"labels,omitempty"`
 }
 
 func (l YLine) text() string {
@@ -39,6 +41,13 @@ func (l YLine) text() string {
 		return l.Pre + "test_title:" + l.Gap + l.Val
 	}
 	return l.Val
+}
+
+func (c C13Case) dir() string {
+	if c.Dir == "" {
+		return "REQUEST-" + c.Rule[:3] + "-X"
+	}
+	return c.Dir
 }
 
 func (c C13Case) content() string {
@@ -175,6 +184,10 @@ func genC13(t *rapid.T) C13Case {
 		lab["no-tests"] = true
 	}
 	c.Via = rapid.SampledFrom([]string{"id", "id", "file", "all"}).Draw(t, "via")
+	c.Dir = rapid.SampledFrom([]string{"", "", "", "rce-unix", "x", "REQUEST-ALL", "0"}).Draw(t, "dir")
+	if c.Dir != "" {
+		lab["directory-without-category-number"] = true
+	}
 	lab["via:"+c.Via] = true
 	c.Lab = labelsOf(lab)
 	return c
@@ -185,13 +198,13 @@ func checkC13(c C13Case) Outcome {
 	content := c.content()
 	sb := cli.NewSandbox("c13")
 	defer sb.Close()
-	rel := "tests/regression/tests/REQUEST-" + c.Rule[:3] + "-X/" + c.Rule + c.Ext
+	rel := "tests/regression/tests/" + c.dir() + "/" + c.Rule + c.Ext
 	other := "tests/regression/tests/REQUEST-911-Y/911100.yaml"
 	otherContent := "---\ntests:\n  - test_id: 1\n  - test_id: 2\n"
 	later := "tests/regression/tests/REQUEST-999-Z/999100.yaml"
 	tree := cli.Tree{"regex-assembly/": "", rel: content, other: otherContent, later: otherContent, "tests/regression/tests/REQUEST-999-Z/notes.txt": "not a test file\n",
-		"tests/regression/tests/REQUEST-" + c.Rule[:3] + "-X/.gitkeep": "", "tests/regression/tests/REQUEST-" + c.Rule[:3] + "-X/0-readme.txt": "  - test_id: 99\n",
-		"tests/regression/tests/REQUEST-" + c.Rule[:3] + "-X/900001.yaml.orig": "  - test_id: 99\n", "tests/regression/tests/.DS_Store": "x"}
+		"tests/regression/tests/" + c.dir() + "/.gitkeep": "", "tests/regression/tests/" + c.dir() + "/0-readme.txt": "  - test_id: 99\n",
+		"tests/regression/tests/" + c.dir() + "/900001.yaml.orig": "  - test_id: 99\n", "tests/regression/tests/.DS_Store": "x"}
 	root := sb.Path("crs")
 	if err := tree.Write(root); err != nil {
 		panic(err)
